@@ -14,7 +14,7 @@ from fractions import Fraction
 
 import z3
 
-from ..core import PKG, Ob, PROVED, REFUTED, FAULT, try_replay, seed
+from ..core import seed, PKG, Ob, PROVED, REFUTED, FAULT, try_replay
 from ..pyvc import (Exec, Ctx, Obj, Opt, NONE, ExcVal, Builtin, TypeRef, GenError, verify_function, discharge)
 from ..contracts import frontend as FE
 from ..contracts import model as M
@@ -243,6 +243,7 @@ def obligations():
         ob, _ = smt.prove(f"{UNIT}/lemma/{nm}", hyps, goal)
         obs.append(ob)
     obs += prefix_obligations()
+    obs += atoms_class_obligation()
     return execs, obs
 
 
@@ -332,6 +333,30 @@ def si_unit_obligations():
     return [], ex, si_contract
 
 
+def atoms_class_obligation():
+    """evaluate_expression iterates expr.atoms(<cls>): the class must cover every quantity atom (SymPy's Quantity base class),
+    otherwise raw unit quantities stay unevaluated.  Resolved from the AST + the real module namespace."""
+    import importlib
+    import sympy.physics.units as U
+    mod = importlib.import_module("symplyphysics.core.convert")
+    tree = ast.parse((PKG / "core/convert.py").read_text())
+    fn = next(n for n in ast.walk(tree) if isinstance(n, ast.FunctionDef) and n.name == "evaluate_expression")
+    calls = [n for n in ast.walk(fn) if isinstance(n, ast.Call) and isinstance(n.func, ast.Attribute) and n.func.attr == "atoms"]
+    ok, detail = bool(calls), "no .atoms(...) call found"
+    for c in calls:
+        names = [a.id for a in c.args if isinstance(a, ast.Name)]
+        for nm in names:
+            cls = getattr(mod, nm, None)
+            if not (isinstance(cls, type) and issubclass(U.Quantity, cls)):
+                ok, detail = False, f"atoms({nm}) does not cover sympy.physics.units.Quantity"
+        if not names:
+            ok, detail = False, "atoms() called without a quantity class"
+    ob = Ob(f"{UNIT}/evaluate_expression/callee-pre:atoms-class-covers-every-quantity-atom", PROVED if ok else REFUTED, "ast-scan", 0.0, "" if ok else detail, "")
+    if not ok:
+        ob.replay = try_replay("from vf.contracts.refimpl import replay_convert\nreplay_convert(('evaluate', 0))\n")
+    return [ob]
+
+
 def prefix_obligations():
     obs = []
     tree = ast.parse((PKG / "core/symbols/prefixes.py").read_text())
@@ -394,11 +419,25 @@ def bounded_evaluate(report):
             failures.append({"name": f"{UNIT}/bounded/kelvin_quantity({tval})", "detail": f"{k.scale_factor}, {back}", "replay": {"reproduced": True, "script":
                              "from symplyphysics.core.symbols.celsius import Celsius, to_kelvin_quantity, from_kelvin_quantity\nfrom symplyphysics.core.convert import convert_to\nfrom sympy.physics import units as U\n"
                              f"k = to_kelvin_quantity(Celsius({tval}))\nassert abs(float(convert_to(k, U.kelvin)) - ({tval} + 273.15)) < 1e-9 and abs(from_kelvin_quantity(k).value - ({tval})) < 1e-9, (k.scale_factor, k.dimension)\n"}})
+    from ..contracts import refimpl
+    t, why, n = refimpl.search_convert()
+    count += n
+    if t is not None:
+        failures.append({"name": f"{UNIT}/audit/{t}", "detail": why, "replay": {"reproduced": True, "script": f"from vf.contracts.refimpl import replay_convert\nreplay_convert({t!r})\n"}})
     report.add_bounded("evaluate_expression / evaluate_quantity / to_kelvin_quantity / from_kelvin_quantity executed on enumerated inputs",
                        f"{len(exprs)} expressions over 8 seeded quantities, 8 quantities, 6 temperatures", count, not failures, failures)
 
 
 def run(report):
+    from ..pyvc import GenError as _GenError
+    from ..contracts import refimpl as _refimpl
+    try:
+        _run(report)
+    except (_GenError, NotImplementedError, KeyError, AttributeError, TypeError) as e:
+        _refimpl.generation_fallback(report, 'convert', UNIT, f"{type(e).__name__}: {e}", seed())
+
+
+def _run(report):
     execs, obs = obligations()
     report.extend(obs)
     for f, rel in (("convert.convert_to", "core/convert.py"), ("convert.convert_to_float", "core/convert.py"), ("convert.convert_to_si", "core/convert.py"),
